@@ -306,6 +306,10 @@ def _sf_close(eng, args, kw, st, fr, k, node):
 def _sf_throw(eng, args, kw, st, fr, k, node):
     g = dict(st.ghost)
     e = args[0]
+    self_cell = st.heap[st.env["self"].base]
+    eng.oblige("relay", "the failure is recorded in got_exception before it is thrown back into the source "
+                        "(the processor re-raises it from there at the end)", st,
+               eng.equal(self_cell["got_exception"], Opq(eng.to_v(e))), node)
     g["thrown"] = eng.to_v(e.payload) if isinstance(e, Exc) and e.payload is not None else z3.Const("exc", V)
     g["throw_calls"] = g["throw_calls"] + 1
     s2 = St(st.env, st.heap, st.pc, g)
@@ -405,4 +409,110 @@ save_from = REG.add(Contract(
            "strax.Rechunker": _sf_rechunker, "rechunker.receive": _sf_receive, "rechunker.flush": _sf_receive,
            "f.result": _sf_result},
     local_sorts={"pending": ListT("V"), "chunks": "V", "new_f": "V"},
+))
+
+
+# --------------------------------------------------------------------------------------
+# StorageFrontend: which data a frontend takes / provides, and the broken-data check of find()
+# --------------------------------------------------------------------------------------
+from pyvc.engine import strv, truthy  # noqa: E402
+
+STARTSWITH = z3.Function("startswith", V, V, z3.BoolSort())
+ATTR = lambda name: z3.Function("attr_" + name, V, V)
+
+
+def we_take_spec(o, dt):
+    """accepted unless excluded, or a non-empty take_only list does not name it"""
+    return z3.And(z3.Not(CONTAINS(o.exclude, dt)), z3.Or(z3.Not(truthy(o.take_only)), CONTAINS(o.take_only, dt)))
+
+
+def superrun_spec(o, run_id):
+    return z3.Or(z3.Not(STARTSWITH(run_id, strv("_"))), truthy(o.provide_superruns))
+
+
+FRONTEND_MODEL = ClassModel(methods={})
+FRONTEND = ObjT("StorageFrontend", model=FRONTEND_MODEL, readonly="bool", exclude="V", take_only="V", provide_superruns="V",
+                overwrite="V", backends="V")
+
+we_take = REG.add(Contract(
+    FC, "StorageFrontend._we_take",
+    params=dict(self=FRONTEND, data_type="V"),
+    ensures=lambda S, a, r: [("a data type is taken unless it is excluded or a non-empty take_only list does not name it",
+                              S.Iff(S.truthy(r) if not z3.is_bool(r) else r, we_take_spec(a.self, a.data_type)))],
+    raises={}, returns="bool",
+    make_result=lambda eng, st, bound: (we_take_spec(eng.resolve(bound["self"], st.heap), eng.to_v(bound["data_type"])), st),
+))
+
+support_superruns = REG.add(Contract(
+    FC, "StorageFrontend._support_superruns",
+    params=dict(self=FRONTEND, run_id="V"),
+    ensures=lambda S, a, r: [("superruns only from frontends that provide them",
+                              S.Iff(S.truthy(r), superrun_spec(a.self, a.run_id)))],
+    raises={},
+    make_result=lambda eng, st, bound: (Opq(z3.Function("bool2v", z3.BoolSort(), V)(
+        superrun_spec(eng.resolve(bound["self"], st.heap), eng.to_v(bound["run_id"])))), st),
+))
+FRONTEND_MODEL.methods["_we_take"] = we_take
+FRONTEND_MODEL.methods["_support_superruns"] = support_superruns
+
+
+def _backend_find(eng, args, kw, st, fr, k, node):
+    """self._find(...): the backend-specific lookup (exact or fuzzy lineage match); DataNotAvailable if nothing matches"""
+    fr.on_raise(Exc("DataNotAvailable"), st)
+    g = dict(st.ghost)
+    g["found"] = z3.BoolVal(True)
+    return k((Opq(eng.fresh("backend_name", "V")), Opq(eng.fresh("backend_key", "V"))), St(st.env, st.heap, st.pc, g))
+
+
+META = z3.Const("stored_metadata", V)
+
+
+def _get_backend(eng, args, kw, st, fr, k, node):
+    return k(Opq(z3.Const("backend", V)), st)
+
+
+def _get_metadata(eng, args, kw, st, fr, k, node):
+    return k(Opq(META), st)
+
+
+def _find_ens(S, a, r):
+    o = a.self
+    dt, rid = ATTR("data_type")(a.key), ATTR("run_id")(a.key)
+    complete = z3.And(z3.Not(CONTAINS(META, strv("exception"))),
+                      z3.Or(CONTAINS(META, strv("writing_ended")), truthy(a.allow_incomplete) if not z3.is_bool(a.allow_incomplete) else a.allow_incomplete))
+    return [("only data types the frontend takes, and superruns only if it provides them",
+             S.And(we_take_spec(o, dt), superrun_spec(o, rid))),
+            ("a readonly frontend never hands out a location to write to", S.Implies(a.write, S.Not(o.readonly))),
+            ("data found for reading with the broken-data check on was written completely and without an exception",
+             S.Implies(S.And(S.Not(a.write), a.check_broken), complete))]
+
+
+frontend_find = REG.add(Contract(
+    FC, "StorageFrontend.find",
+    params=dict(self=FRONTEND, key="V", write="bool", check_broken="bool", allow_incomplete="bool", fuzzy_for="V",
+                fuzzy_for_options="V"),
+    ensures=_find_ens,
+    raises={"DataNotAvailable": lambda S, a: S.true, "DataExistsError": lambda S, a: a.write},
+    ghost={"found": z3.BoolVal(False)},
+    calls={"self._find": _backend_find, "self._get_backend": _get_backend, "self.find": None},
+))
+frontend_find.calls["self.find"] = Contract(
+    FC, "StorageFrontend.find", variant="callers-view",
+    params=frontend_find.params, raises={"DataNotAvailable": lambda S, a: S.true}, returns="V")
+frontend_find.calls[".get_metadata"] = _get_metadata
+
+
+can_overwrite = REG.add(Contract(
+    FC, "StorageFrontend._can_overwrite",
+    params=dict(self=FRONTEND, key="V"),
+    ensures=lambda S, a, r: [("overwriting 'if_broken' is allowed exactly for data that is not valid",
+                              S.Implies(S.And(S.Not(S.eq_str(a.self.overwrite, "always")), S.eq_str(a.self.overwrite, "if_broken")),
+                                        S.Iff(r if z3.is_bool(r) else S.truthy(r),
+                                              S.Not(S.And(CONTAINS(META, strv("writing_ended")), S.Not(CONTAINS(META, strv("exception")))))))),
+                             ("'always' always, anything else never",
+                              S.And(S.Implies(S.eq_str(a.self.overwrite, "always"), r if z3.is_bool(r) else S.truthy(r)),
+                                    S.Implies(S.Not(S.Or(S.eq_str(a.self.overwrite, "always"), S.eq_str(a.self.overwrite, "if_broken"))),
+                                              S.Not(r if z3.is_bool(r) else S.truthy(r)))))],
+    raises={},
+    calls={"self.get_metadata": _get_metadata},
 ))
